@@ -7,7 +7,9 @@ Open Scope N_scope.
      C01_statement := forall h, wf_history h = true -> srv_run h = ref_run h
    where wf_history demands what a conforming client sends: documents made of well-formed
    code points, LF or CRLF line ends, start <= end, no position inside a surrogate pair.
-   It is FALSE of the faithful model; two independent witnesses: *)
+   It is FALSE of the faithful model: a ranged change with the empty range 0:0-0:0 cannot be told
+   from a range-less one (the protocol library decodes both into the same value).  (A second
+   witness of the pinned tree, clamping after the CR of a CRLF line end, was repaired in /repo.) *)
 Theorem C01_refuted : ~ C01_statement.
 Proof. exact statement_refuted. Qed.
 Print Assumptions C01_refuted.
@@ -17,17 +19,18 @@ Theorem C01_refuted_zero_range_insert :
 Proof. exact refuted_zero_insert. Qed.
 Print Assumptions C01_refuted_zero_range_insert.
 
-Theorem C01_refuted_crlf_past_eol :
+Theorem C01_sample_crlf_past_eol :
   wf_history witness_crlf = true /\ has_zero_insert witness_crlf = false /\
-  srv_run witness_crlf <> ref_run witness_crlf.
-Proof. exact refuted_crlf. Qed.
-Print Assumptions C01_refuted_crlf_past_eol.
+  dlookup 0 (srv_run witness_crlf) = Some (bs "abX" ++ [CR; LF] ++ bs "cd") /\
+  srv_run witness_crlf = ref_run witness_crlf.
+Proof. exact crlf_past_eol_sample. Qed.
+Print Assumptions C01_sample_crlf_past_eol.
 
-(* The same statement outside the two refuted classes, for ALL histories (any length, any
-   number of documents, any UTF-8 text, any positions incl. past line end / document end,
-   several changes per notification, close and re-open): *)
+(* The same statement outside the one refuted class, for ALL histories (any length, any
+   number of documents, any UTF-8 text with LF or CRLF line ends, any positions incl. past line
+   end / document end, several changes per notification, close and re-open): *)
 Theorem C01_partial : forall h,
-  wf_history h = true -> has_zero_insert h = false -> has_crlf_past h = false ->
+  wf_history h = true -> has_zero_insert h = false ->
   srv_run h = ref_run h.
 Proof. exact partial. Qed.
 Print Assumptions C01_partial.
@@ -35,14 +38,14 @@ Print Assumptions C01_partial.
 (* position resolution itself: on well-formed text, the server's byte offset of any
    (line, UTF-16 column) is the reference client's *)
 Theorem C01_positions : forall t l c k,
-  cps_ok t 0 = true -> past_eol_crlf t l c = false -> ref_off t l c = Some k ->
+  cps_ok t 0 = true -> ref_off t l c = Some k ->
   lsp_to_byte t l c = k.
 Proof. intros t l c k H. exact (off_agree t 0 l c k H (fun _ => eq_refl)). Qed.
 Print Assumptions C01_positions.
 
 (* answers that depend on the stored text only are those of the client's text *)
 Theorem C01_fresh_doc_only : forall (f : option (list N) -> list N) h u,
-  wf_history h = true -> has_zero_insert h = false -> has_crlf_past h = false ->
+  wf_history h = true -> has_zero_insert h = false ->
   f (dlookup u (srv_run h)) = f (dlookup u (ref_run h)).
 Proof. exact fresh_doc_only. Qed.
 Print Assumptions C01_fresh_doc_only.
